@@ -7,6 +7,7 @@ Inductive case :=
 | CFanin (C : Circuit) (k : nat) (steps : list step3) (obs : res Circuit)     (* steps read back from the result *)
 | CFanout (C : Circuit) (k : nat) (steps : list step3) (obs : res Circuit)
 | CRegs (C : Circuit) (s : nat) (order : list string) (obs : res Circuit)     (* order = list(c.graph.nodes) *)
+| CRegsG (C : Circuit) (s : nat) (order : list string) (A : reg_args) (obs : res Circuit)   (* non-default flop / ports / other_flop_io / suffix *)
 | CUnroll (C : Circuit) (obs : res Circuit).                                   (* acyclic_unroll of an acyclic circuit: oracle only *)
 
 Definition agree (k : case) : bool :=
@@ -14,7 +15,8 @@ Definition agree (k : case) : bool :=
   (* replayed through the Base/Api.v operations (disconnect_g, add_g, connect_g); Proofs/LimitApi.v: an accepted API-level run is an accepted run of the direct model with the same result *)
   | CFanin C k steps obs => bool_decide (limit_fanin_run_api C k steps = obs)
   | CFanout C k steps obs => bool_decide (limit_fanout_run_api C k steps = obs)
-  | CRegs C s order obs => bool_decide (insert_registers C s order = obs)
+  | CRegs C s order obs => bool_decide (insert_registers_api default_reg_args C s order = obs) && bool_decide (insert_registers C s order = obs)
+  | CRegsG C s order A obs => bool_decide (insert_registers_api A C s order = obs)
   | CUnroll _ _ => true
   end.
 
@@ -41,6 +43,13 @@ Definition holds (k : case) : bool :=
   | CRegs C s order (Raise ValueError) =>
       (* the property is silent when no stage boundary exists (or the circuit is cyclic) *)
       negb (acyclicb (c_g C)) || no_boundary (c_g C) s
+  | CRegsG C s order A (Ok C') =>
+      let keys : gset string := list_to_set (fst <$> ra_other A) in
+      let pins : gset string := set_fold (λ inst acc, list_to_set (pin inst <$> (ra_ins A ++ ra_outs A)%list) ∪ acc) ∅ (dom (c_bbs C')) in
+      bool_decide (outputs (c_g C') = outputs (c_g C))
+      && bool_decide (inputs (c_g C) ⊆ inputs (c_g C')) && bool_decide (inputs (c_g C') ⊆ inputs (c_g C) ∪ keys)
+      && equiv_check_ext (c_g C) (short_flops_gen (ra_d A) (ra_q A) C') (keys ∪ pins) && lint_cleanb C'
+  | CRegsG C s order A (Raise ValueError) => negb (acyclicb (c_g C)) || no_boundary (c_g C) s
   | CUnroll C (Ok C') =>
       same_io (c_g C) (c_g C') && lint_cleanb C' &&
       equiv_check_ren (c_g C) (c_g C') (elements (outputs (c_g C))) id &&
